@@ -322,7 +322,9 @@ pub fn query_json(app: &BatchAppSpec, q: &QuerySpec, qid: usize) -> Value {
         o.insert("destination_vertex".into(), id(&q.destination));
     }
     if app.kind >= 8 {
-        o.insert("model_name".into(), json!(ENERGY_VEHICLE));
+        // every third query of a combustion configuration drives the second vehicle
+        let bev = app.kind == 8 && app.variant % 4 == 3;
+        o.insert("model_name".into(), json!(if !bev && qid % 3 == 2 { crate::appbuild::ENERGY_VEHICLE_2 } else { ENERGY_VEHICLE }));
         if app.kind == 8 && app.variant % 4 == 3 {
             // per-query starting charge of the battery vehicle
             o.insert("starting_soc_percent".into(), json!(20 + (qid * 13) % 70));
